@@ -794,7 +794,7 @@ def check_c15(tier, seed):
                "recovered:acked_update_lost", "recovered:stale_update_resurfaced", "recovered:phantom_update", "recovered2:acked_update_lost",
                "recovered2:stale_update_resurfaced", "recovered2:phantom_update", "reopen_failed", "post:reopen_failed", "post:restart_differs_facts", "post:op_failed"]
     acc = ConcAcc("C15", tier, seed, oracles, "exploration")
-    n = 450 if tier == "quick" else 40000
+    n = 800 if tier == "quick" else 60000
     conc_batch(acc, [("c15p", n), ("c15e", n)], seed)
     acc.conc_extra()
     rule = ("level 1: 2-3 simulated threads x 1-3 operations {append (unique tuples, +1/-1), flush, compact} on 1-2 shards of the real FilePersist, buffer_size in {1,2,3,10000}; "
@@ -838,7 +838,7 @@ def check_c19(tier, seed):
 def check_c20(tier, seed):
     oracles = ["not_linearizable", "deadlock", "not_a_set", "observe_failed", "open_failed"]
     acc = ConcAcc("C20", tier, seed, oracles, "exploration")
-    n = 900 if tier == "quick" else 60000
+    n = 2400 if tier == "quick" else 120000
     conc_batch(acc, [("c20", n)], seed, crash_share_num=0)
     acc.conc_extra()
     rule = ("1-2 writers issuing multi-tuple inserts (2-3 fresh tuples each), deletes, register/drop of a copy rule, and 1-2 readers reading the whole relation through the "
@@ -887,7 +887,7 @@ def check_c32(tier, seed):
     oracles = ["report_mismatch", "persistent_facts_differ_from_model", "not_a_set", "stateless_query_differs_from_fresh_evaluation", "reopen_failed",
                "observe_failed", "open_failed", "insert_rejected_without_schema", "persistent_rules_differ_from_model"]
     acc = HAcc("C32", tier, seed, oracles, "exploration")
-    n = 1500 if tier == "quick" else 60000
+    n = 2000 if tier == "quick" else 100000
     cases = gen("c32", seed, 0, n)
     outs = execute(cases, timeout_s=240)
     determinism_spot_check(cases, outs, k=10)
@@ -910,7 +910,7 @@ def check_c33(tier, seed):
     oracles = ["schema_violation_accepted", "conforming_insert_rejected", "insert_rejected_without_schema", "persistent_facts_differ_from_model", "not_a_set",
                "reopen_failed", "observe_failed", "open_failed", "stateless_query_differs_from_fresh_evaluation"]
     acc = HAcc("C33", tier, seed, oracles, "exploration")
-    n = 1500 if tier == "quick" else 60000
+    n = 2500 if tier == "quick" else 100000
     cases = gen("c33", seed, 0, n)
     outs = execute(cases, timeout_s=240)
     determinism_spot_check(cases, outs, k=10)
@@ -930,7 +930,7 @@ def check_c10(tier, seed):
                "persistent_facts_differ_from_model", "persistent_rules_differ_from_model", "session_report_mismatch", "not_a_set", "observe_failed", "open_failed",
                "insert_rejected_without_schema", "conforming_insert_rejected"]
     acc = HAcc("C10", tier, seed, oracles, "exploration")
-    n = 700 if tier == "quick" else 30000
+    n = 1800 if tier == "quick" else 60000
     cases = gen("c10", seed, 0, n)
     outs = execute(cases, timeout_s=300)
     determinism_spot_check(cases, outs, k=8)
@@ -950,7 +950,7 @@ def check_c18(tier, seed):
     oracles = ["stateless_query_differs_from_fresh_evaluation", "request_local_query_differs_from_fresh_evaluation", "persistent_facts_differ_from_model",
                "persistent_rules_differ_from_model", "not_a_set", "observe_failed", "open_failed", "panic"]
     acc = HAcc("C18", tier, seed, oracles, "exploration")
-    n = 900 if tier == "quick" else 40000
+    n = 1800 if tier == "quick" else 60000
     cases = gen("c18", seed, 0, n)
     outs = execute(cases, timeout_s=300)
     determinism_spot_check(cases, outs, k=8)
@@ -992,12 +992,12 @@ def check_c04(tier, seed):
 C24_ORACLES = ["more_than_k_results", "duplicate_id_in_results", "dead_id_in_results", "distance_not_exact", "results_not_sorted",
                "too_few_results_in_exact_regime", "not_true_nearest_in_exact_regime", "panic"]
 C25_ORACLES = ["insert_acceptance_differs", "tombstones_after_rebuild", "save_load_changes_index", "index_save_failed", "index_load_failed", "config_changed",
-               "dimension_differs", "tombstone_count_exceeds_deletes", "live_vector_missing", "final_id_set_differs", "final_vector_differs", "rebuild_failed", "panic"]
+               "dimension_differs", "tombstone_count_exceeds_deletes", "live_vector_missing", "stored_count_differs", "final_id_set_differs", "final_vector_differs", "rebuild_failed", "panic"]
 
 
 def vec_check(prop, oracles, tier, seed, rule, entropy_seeds):
     acc = Acc(prop, tier, seed, oracles, "exploration")
-    n_hist = (220 if tier == "quick" else 8000)
+    n_hist = (300 if tier == "quick" else 12000)
     hist = gen("vec", seed, 0, n_hist)
     cases = []
     for h in hist:
@@ -1044,7 +1044,7 @@ def check_c26(tier, seed):
     oracles = ["lsh_bucket_depends_on_cache_state", "deadlock", "panic", "law_symmetry", "law_non_negative", "law_identity", "law_cosine_range",
                "law_quantize_roundtrip", "law_probes_start", "law_probes_distinct", "law_probes_hamming_order"]
     acc = ConcAcc("C26", tier, seed, oracles, "exploration")
-    n = 1500 if tier == "quick" else 60000
+    n = 4000 if tier == "quick" else 200000
     cases = gen("lsh", seed, 0, n)
     outs = execute(cases, timeout_s=120)
     determinism_spot_check(cases, outs, k=10)
